@@ -1,10 +1,10 @@
 """Executing bitwise operators (C13) and shifts (C14) on the real implementation."""
 from . import common
 from .common import wint
-from .x_arith import mk, fmt_of
+from .x_arith import mk, fmt_of, mk_hist
 
 
-def observe_bitwise(fx, np, props, op, tx, cxs, ty=None, cys=None, mask=None, side='right', scalar=False):
+def observe_bitwise(fx, np, props, op, tx, cxs, ty=None, cys=None, mask=None, side='right', scalar=False, hist=None):
     """op in not/and/or/xor.  y: a scalar Fxp of format ty (codes cys, one per x element => element-wise scalar calls are
     made by the caller) or an integer mask on either side."""
     row = {'k': 'bitwise', 'p': list(props), 'op': op, 'x': dict(zip('swf', (bool(tx[0]), tx[1], tx[2]))),
@@ -12,7 +12,9 @@ def observe_bitwise(fx, np, props, op, tx, cxs, ty=None, cys=None, mask=None, si
            'ykind': 'fxp' if ty else ('mask' if mask is not None else 'none'), 'side': side,
            'route': op + ('/' + ('fxp' if ty else 'mask-' + side) if op != 'not' else ''), 'carrier': 'scalar' if scalar else 'array'}
     try:
-        X = mk(fx, np, tx, cxs[0] if scalar else cxs)
+        X = mk_hist(fx, np, tx, cxs[0] if scalar else cxs, None, mode=hist) if hist else mk(fx, np, tx, cxs[0] if scalar else cxs)
+        if hist:
+            row['route'] = row['route'] + '/hist-' + hist
         if op == 'not':
             Z = ~X
             cy = 0
@@ -47,11 +49,15 @@ def observe_mismatch(fx, np, props, op, tx, ty):
         return dict(row, raised=True, err=type(ex).__name__)
 
 
-def observe_shift(fx, np, props, direction, mode, tx, cxs, n, ovf='saturate', scalar=False):
+def observe_shift(fx, np, props, direction, mode, tx, cxs, n, ovf='saturate', scalar=False, hist=None):
     row = {'k': 'shift', 'p': list(props), 'dir': direction, 'mode': mode, 'n': n, 'x': dict(zip('swf', (bool(tx[0]), tx[1], tx[2]))),
            'o': ovf, 'route': direction + '/' + mode, 'carrier': 'scalar' if scalar else 'array'}
     try:
-        X = mk(fx, np, tx, cxs[0] if scalar else cxs, shifting=mode, overflow=ovf)
+        if hist:
+            X = mk_hist(fx, np, tx, cxs[0] if scalar else cxs, None, mode=hist, shifting=mode, overflow=ovf)
+            row['route'] = row['route'] + '/hist-' + hist
+        else:
+            X = mk(fx, np, tx, cxs[0] if scalar else cxs, shifting=mode, overflow=ovf)
         Z = (X << n) if direction == 'l' else (X >> n)
         cl = [cxs[0]] if scalar else list(cxs)
         return dict(row, z=fmt_of(Z), cx=[wint(c) for c in cl], ca=[wint(c) for c in common.codes_of(X)],
